@@ -70,8 +70,6 @@ class ParserConfig(Config):
     memo_cache_size: int | None = None
 
     def __post_init__(self):  # pylint: disable=W0235
-        if self.ignorecase and self.keywords:
-            self.keywords = tuple({k.upper() for k in self.keywords})
         super().__post_init__()
 
         if not self.memoization:
